@@ -41,6 +41,7 @@ fn main() {
             let scale: f64 = arg(&args, "--time-scale").and_then(|s| s.parse().ok()).unwrap_or(1.0);
             let cross = tier == Tier::Thorough || std::env::var("SYMX_CROSS").is_ok();
             let mut ex = Explorer::new(3000, cross);
+            ex.property = prop.clone();
             if tier == Tier::Thorough {
                 ex.z3.fallback_ms = 30000;
                 ex.z3.fallback_solvers = 3;
